@@ -1,7 +1,7 @@
 /-
 Model of `des/src/net/topology.rs` over the gate model (Model/Gate.lean):
 `Topology::from_modules` (= `Topology::current`, `Globals::topology`), `Topology::spanned`,
-`filter_nodes`, `dijkstra`, `connected`, `bidirectional`, `edges` / `edges_for`.
+`filter_nodes`, `filter_edges`, `dijkstra`, `connected`, `bidirectional`, `edges` / `edges_for`.
 
 A topology is `nodes : Vec<Node>` plus `edges : Vec<Vec<EdgeRaw>>` indexed alike; an `EdgeRaw` holds
 the index `dst` of the destination node and the two end gates.  Modules and gates are `Nat` ids.
@@ -157,6 +157,13 @@ structure FullEdge where
   src : Nat
   e : Edge
 deriving Repr, DecidableEq
+
+/-- `Topology::filter_edges(f)`: `for (src, bundle) in edges.iter_mut().enumerate() { bundle.retain(…) }`.
+    The predicate is handed the `Edge` view (source node = `nodes[src]`, destination node =
+    `nodes[raw.dst]`, both gates); node index + raw edge determine all of it, so the model predicate
+    takes those.  Nodes, their order and all indices stay as they are. -/
+def filterEdges (t : T) (f : FullEdge → Bool) : T :=
+  { t with edges := t.edges.mapIdx fun src bundle => bundle.filter fun e => f ⟨src, e⟩ }
 
 /-- `Topology::edges()` -/
 def allEdges (t : T) : List FullEdge :=
